@@ -105,13 +105,13 @@ func ruleC05Dash(c *Ctx) {
 			switch x := i.(type) {
 			case *ssa.Store:
 				if fa, ok := x.Addr.(*ssa.FieldAddr); ok && c.ownerName(fa.X.Type()) == "Schema" {
-					writes[core.StructField(fa.X.Type(), fa.Field).Name()] = true
+					writes[core.CanonFieldOf(fa.X.Type(), fa.Field)] = true
 				}
 			case *ssa.MapUpdate:
 				for _, s := range traceSources(x.Map) {
 					if ld, ok := s.(*ssa.UnOp); ok {
 						if fa, ok := ld.X.(*ssa.FieldAddr); ok && c.ownerName(fa.X.Type()) == "Schema" {
-							writes[core.StructField(fa.X.Type(), fa.Field).Name()+"[]"] = true
+							writes[core.CanonFieldOf(fa.X.Type(), fa.Field)+"[]"] = true
 						}
 					}
 				}
@@ -119,7 +119,7 @@ func ruleC05Dash(c *Ctx) {
 				// address of a field handed to a decoder or helper
 				for _, a := range x.Common().Args {
 					if fa, ok := peelIface(a).(*ssa.FieldAddr); ok && c.ownerName(fa.X.Type()) == "Schema" {
-						writes[core.StructField(fa.X.Type(), fa.Field).Name()] = true
+						writes[core.CanonFieldOf(fa.X.Type(), fa.Field)] = true
 					}
 				}
 			}
@@ -514,12 +514,12 @@ func ruleC05Integers(c *Ctx) {
 			var sfield, wfield string
 			for _, a := range call.Common().Args {
 				if fa, ok := a.(*ssa.FieldAddr); ok && c.ownerName(fa.X.Type()) == "Schema" {
-					sfield = core.StructField(fa.X.Type(), fa.Field).Name()
+					sfield = core.CanonFieldOf(fa.X.Type(), fa.Field)
 				}
 				for _, s := range traceSources(a) {
 					if ld, ok := s.(*ssa.UnOp); ok {
 						if fa, ok := ld.X.(*ssa.FieldAddr); ok && types.Identical(derefType(fa.X.Type()), ut) {
-							wfield = core.StructField(fa.X.Type(), fa.Field).Name()
+							wfield = core.CanonFieldOf(fa.X.Type(), fa.Field)
 						}
 					}
 				}
@@ -651,11 +651,11 @@ func ruleC05NameSetEmbedded(c *Ctx) {
 		}
 		for _, br := range fi.DomGuards(mu.Block()) {
 			cond, pol := br.Cond()
-			if fld, ok := cond.(*ssa.Field); ok && pol && core.StructField(fld.X.Type(), fld.Field).Name() == "Anonymous" {
+			if fld, ok := cond.(*ssa.Field); ok && pol && core.CanonFieldOf(fld.X.Type(), fld.Field) == "Anonymous" {
 				okRec = true
 			}
 			if ld, ok := cond.(*ssa.UnOp); ok && pol {
-				if fa, ok := ld.X.(*ssa.FieldAddr); ok && core.StructField(fa.X.Type(), fa.Field).Name() == "Anonymous" {
+				if fa, ok := ld.X.(*ssa.FieldAddr); ok && core.CanonFieldOf(fa.X.Type(), fa.Field) == "Anonymous" {
 					okRec = true
 				}
 			}
@@ -708,11 +708,11 @@ func ruleNameSetExact(c *Ctx, rule string) {
 		for _, s := range traceSources(mu.Key) {
 			switch x := s.(type) {
 			case *ssa.Field:
-				if core.StructField(x.X.Type(), x.Field).Name() != "name" {
-					okKey, why = false, "field "+core.StructField(x.X.Type(), x.Field).Name()
+				if core.CanonFieldOf(x.X.Type(), x.Field) != "name" {
+					okKey, why = false, "field "+core.CanonFieldOf(x.X.Type(), x.Field)
 				}
 			case *ssa.UnOp:
-				if fa, ok := x.X.(*ssa.FieldAddr); ok && core.StructField(fa.X.Type(), fa.Field).Name() == "name" {
+				if fa, ok := x.X.(*ssa.FieldAddr); ok && core.CanonFieldOf(fa.X.Type(), fa.Field) == "name" {
 					continue
 				}
 				okKey, why = false, "a computed value"
@@ -767,20 +767,20 @@ func ruleC05UnionVariants(c *Ctx) {
 			switch x := i.(type) {
 			case *ssa.Store:
 				if fa, ok := x.Addr.(*ssa.FieldAddr); ok && c.ownerName(fa.X.Type()) == "Schema" {
-					field, at, val = core.StructField(fa.X.Type(), fa.Field).Name(), x, x.Val
+					field, at, val = core.CanonFieldOf(fa.X.Type(), fa.Field), x, x.Val
 				}
 			case *ssa.MapUpdate:
 				for _, s := range traceSources(x.Map) {
 					if ld, ok := s.(*ssa.UnOp); ok {
 						if fa, ok := ld.X.(*ssa.FieldAddr); ok && c.ownerName(fa.X.Type()) == "Schema" {
-							field, at = core.StructField(fa.X.Type(), fa.Field).Name(), x
+							field, at = core.CanonFieldOf(fa.X.Type(), fa.Field), x
 						}
 					}
 				}
 			case *ssa.Call:
 				if core.CalleeKey(&x.Call) == "encoding/json.Unmarshal" {
 					if fa, ok := peelIface(x.Call.Args[1]).(*ssa.FieldAddr); ok && c.ownerName(fa.X.Type()) == "Schema" {
-						field, at = core.StructField(fa.X.Type(), fa.Field).Name(), x
+						field, at = core.CanonFieldOf(fa.X.Type(), fa.Field), x
 					}
 				}
 			}
